@@ -35,6 +35,7 @@ type Opts struct {
 	Targets bool // per-target relation query comparison after every op
 	AllIDs  bool // check Has/Get for every registered ID, not only a sample
 	NoTrans bool // do not compute transcript
+	Track   bool // coverage counters (critical events)
 }
 
 // Violation is a detected property violation.
@@ -316,9 +317,36 @@ func (s *Sess) Do(op *Op) *Outcome {
 	}
 	s.batchAff = pre
 	lockedBefore := s.W.IsLocked()
+	row, tlen, cap0, ret0 := -1, 0, 0, 0
+	if HooksOn && s.O.Track && op.Ill == "" {
+		if op.E != nil {
+			if _, ok := s.M.Alive[entOf(*op.E)]; ok {
+				row, tlen, _ = hookLocate(s.W, entOf(*op.E))
+			}
+		}
+		cap0 = hookCapSum(s.W)
+		_, ret0, _ = hookTables(s.W)
+	}
+	if s.O.Track && op.Ill == "" {
+		s.modelCounters(op)
+	}
 	s.call(op, out)
 	s.batchAff = nil
 	s.Cov.Ops[op.K]++
+	if HooksOn && s.O.Track && op.Ill == "" && out.Panic == "" {
+		if row >= 0 && row < tlen-1 && movesEntity(op.K) {
+			s.Cov.N["swap_removes"]++
+		}
+		if hookCapSum(s.W) > cap0 {
+			s.Cov.N["growths"]++
+		}
+		_, ret1, _ := hookTables(s.W)
+		if ret1 > ret0 {
+			s.Cov.N["table_retires"]++
+		} else if ret1 < ret0 {
+			s.Cov.N["table_reuses"]++
+		}
+	}
 	if op.Ill != "" {
 		if out.Panic == "" {
 			s.fail("illegal.nopanic:"+op.Ill, "illegal call (%s) returned normally", op.Ill)
@@ -860,3 +888,100 @@ func (s *Sess) buildListenerPath(spec *LsnSpec, sink func(path []int, w *ecs.Wor
 }
 
 func sortInts(x []int) []int { sort.Ints(x); return x }
+
+func movesEntity(k string) bool {
+	switch k {
+	case "RemoveEntity", "Add", "Remove", "Exchange", "Assign", "RelSet", "RelExchange", "BuilderAdd":
+		return true
+	}
+	return false
+}
+
+// modelCounters counts critical events that are visible in the model, before the op is applied.
+func (s *Sess) modelCounters(op *Op) {
+	m := s.M
+	n := s.Cov.N
+	if op.E != nil {
+		me, ok := m.Alive[entOf(*op.E)]
+		if !ok {
+			return
+		}
+		valued := 0
+		for id := range me.Comps {
+			if m.Types[id].Size > 0 {
+				valued++
+			}
+		}
+		rel := m.RelOf(me)
+		switch op.K {
+		case "Add", "Remove", "Exchange", "Assign", "RelExchange", "BuilderAdd", "RelSet":
+			if valued >= 2 && (len(op.Add)+len(op.Rem) > 0 || op.K == "RelSet") {
+				n["moves_2valued"]++
+			}
+			if rel >= 0 && !me.Target.IsZero() && op.K != "RelSet" && len(op.Add)+len(op.Rem) > 0 {
+				if contains(op.Rem, rel) {
+					n["relation_reset"]++
+				} else if op.T == nil {
+					n["target_retained"]++
+				}
+			}
+		case "RemoveEntity":
+			e := entOf(*op.E)
+			kids, self := 0, false
+			for o, oe := range m.Alive {
+				if oe.Target == e && m.RelOf(oe) >= 0 {
+					if o == e {
+						self = true
+					} else {
+						kids++
+					}
+				}
+			}
+			if self {
+				n["death_self_target"]++
+			}
+			if kids > 0 {
+				n["death_with_children"]++
+			} else if s.targets[e] {
+				n["death_former_target"]++
+			}
+		}
+		return
+	}
+	if isBatchKind(op.K) && op.K != "NewBatch" {
+		masks := map[string]bool{}
+		deadT := false
+		parentIn := false
+		matched := m.Matching(s.specOf(op))
+		set := map[ecs.Entity]bool{}
+		for _, e := range matched {
+			set[e] = true
+		}
+		for _, e := range matched {
+			me := m.Alive[e]
+			masks[fmt.Sprint(me.IDs(), me.Target)] = true
+			if !me.Target.IsZero() {
+				if _, alive := m.Alive[me.Target]; !alive {
+					deadT = true
+				} else if set[me.Target] {
+					parentIn = true
+				}
+			}
+		}
+		if len(masks) >= 2 {
+			n["batch_2tables"]++
+		}
+		if deadT {
+			n["batch_dead_target_source"]++
+		}
+		if parentIn && op.K == "BatchRemoveEntities" {
+			n["batch_parent_and_children"]++
+		}
+		if op.Slot != nil {
+			n["batch_via_cached"]++
+			if deadT || parentIn {
+				n["batch_via_cached_retiring"]++
+			}
+		}
+	}
+}
